@@ -2,8 +2,10 @@
 import modelpins
 
 PINS = {
-    "CxxParser._parse_class_decl": "7389777b4a08cd7a4a82e7cd",
-    "CxxParser._maybe_parse_class_enum_decl": "4e032bb90ebb09b12018a73b",
+    "CxxParser._parse_class_decl": "b7a61b168afe7bb5caeac21d",
+    "CxxParser._finish_class_or_enum": "99e950d072e8dec69dc81b45",
+    "CxxParser._finish_class_decl": "1b1e28788e27a85609b79609",
+    "CxxParser._maybe_parse_class_enum_decl": "0ef70070edf7ac5211a9e518",
     "CxxParser._parse_decl": "c1738e4cc791a6362a5d23e6",
     "CxxParser._parse_class_decl_base_clause": "c2f037b6dcbdee0e01c7ecf3",
     "CxxParser._parse_method_end": "d44b03d1e9ba047189393fbe",
